@@ -26,5 +26,5 @@ PROP = {'technique': 'property-based testing (rapid): sequential model-based sta
  'tests': [{'name': 'TestVerifC15_Sequential', 'unit': TL, 'quick': 3000, 'thorough': 20000, 'shards_thorough': 8},
            {'name': 'TestVerifC15_Concurrent', 'unit': TL, 'race': True, 'quick': 300, 'thorough': 1500, 'shards_thorough': 8,
             'timeout_quick': 600, 'timeout_thorough': 3600},
-           {'name': 'TestVerifC15_OnlineE2E', 'unit': TL, 'quick': 60, 'thorough': 150, 'shards_thorough': 8,
+           {'name': 'TestVerifC15_OnlineE2E', 'unit': TL, 'quick': 60, 'thorough': 400, 'shards_thorough': 12,
             'timeout_quick': 600, 'timeout_thorough': 3600}]}
